@@ -33,7 +33,8 @@ def props_for(code, plain=False):
     if code in ARGS: p.append('C02')
     if code in REPLY or code in (2,8,34,3): p.append('C03')
     if code in VALID: p.append('C05')
-    if code in GATED: p.append('C07')
+    # C07: the gated requests themselves, and the requests that write the negotiation state every gate is decided on
+    if code in GATED or code in (1,2,16): p.append('C07')
     if code in FDS or code in (1,8): p.append('C09')
     return ','.join(sorted(p))
 # C04's quick tier is a representative subset (every reply shape, the state-changing messages, fd-carrying
